@@ -13,15 +13,19 @@
 package verifc06
 
 import (
+	"bufio"
 	"bytes"
 	"encoding/binary"
 	"flag"
 	"fmt"
 	"hash/crc32"
 	"os"
+	"os/exec"
 	"path/filepath"
+	"runtime"
 	"sort"
 	"strings"
+	"syscall"
 
 	"github.com/westerndigitalcorporation/blb/pkg/verifhook"
 	vw "github.com/westerndigitalcorporation/blb/pkg/verifwire"
@@ -174,6 +178,9 @@ func (c *collector) on(site string, args []interface{}) {
 		}
 		c.push(Mut{MWrite, seq, now - c.pre, int64(binary.LittleEndian.Uint32(last[:]))}, base, read(), false)
 	case "wal.sync.after":
+		if noRealSync["wal.sync"] {
+			return // the system-call witness saw no fsync between the hook markers of this site
+		}
 		c.push(Mut{MSync, seq, 0, 0}, "", nil, false)
 	case "wal.truncate.after":
 		c.push(Mut{MTruncate, seq, fileSize(p), 0}, base, read(), false)
@@ -182,6 +189,9 @@ func (c *collector) on(site string, args []interface{}) {
 	case "wal.unlink.after":
 		c.push(Mut{MUnlink, seq, 0, 0}, base, nil, true)
 	case "wal.dirsync.after":
+		if noRealSync["wal.dirsync"] {
+			return
+		}
 		c.push(Mut{MDirSync, 0, 0, 0}, "", nil, false)
 	}
 }
@@ -366,8 +376,10 @@ type Runner struct {
 	rng     *vw.Rng
 	dead    bool // an Append failed half-way: the log must be reopened before further use
 	pend    int64 // number of records of the failed batch that may have reached the file
-	synced  map[string]int64 // per file: length covered by the last fsync (created files start at 0)
-	clsTag  string           // appended to the state class in signatures
+	durable  map[string][]byte // per file: content as of its last fsync (a created file starts empty)
+	durNames map[string]bool   // directory entries as of the last directory sync
+	clsTag   string            // appended to the state class in signatures
+	observe  bool              // judge, but only count (power-loss states outside C06's crash quantifier)
 	nviol   int
 	seen    map[string]bool
 	desc    strings.Builder
@@ -378,6 +390,10 @@ func (r *Runner) fs() bool { return r.cfg.Mode == 0 || r.cfg.Mode == 2 }
 var reportedGlobal = map[string]int{}
 
 func (r *Runner) report(sig, what string, detail map[string]interface{}) {
+	if r.observe {
+		vw.Stat("observation."+sig, 1)
+		return
+	}
 	if strings.HasPrefix(sig, "live-") || strings.HasPrefix(sig, "cache-") {
 		r.nviol++ // the live log is off the rails: stop this case
 	}
@@ -911,11 +927,7 @@ func (r *Runner) Reopen() bool {
 		r.pend = 0
 		// the surviving prefix of the failed batch was adopted as part of the log: from here on it counts as
 		// durable (a failed Append leaves the log outside the documented contract; see notes)
-		for name, content := range readDir(r.dir) {
-			if _, ok := seqOf(name); ok && r.synced != nil {
-				r.synced[name] = int64(len(content))
-			}
-		}
+		r.markDurable()
 	}
 	r.checkLive(OpReopen, q, "-"+cls)
 	if r.nviol == 0 {
@@ -995,73 +1007,148 @@ func cutSet(n int64, all bool) []int64 {
 }
 
 // crashStates enumerates every crash state of one operation and judges the reopened log.
-// applySync advances the per-file synced lengths over one mutation (state after it = snap).
-func applySync(synced map[string]int64, m Mut, snap snapshot) {
+// ---- power loss: the write-back cache model of coq/theories/C06/CrashCache.v, adversarial minimum ----
+// durable[f] = content of f as of its last fsync (empty for a created file); durNames = entries as of the last
+// directory sync. The state "every listed file holds its durable content" is what survives a power loss in the worst
+// case. With the code as it stands this state differs from the volatile one only while an operation is in flight
+// (and then it equals a prefix-crash state that is judged anyway, theorem wal_powerloss), except after a
+// logFile.Truncate, whose ftruncate is not followed by an fsync.
+
+type plState struct {
+	durable  map[string][]byte
+	durNames map[string]bool
+}
+
+func (p plState) clone() plState {
+	q := plState{map[string][]byte{}, map[string]bool{}}
+	for k, v := range p.durable {
+		q.durable[k] = v
+	}
+	for k, v := range p.durNames {
+		q.durNames[k] = v
+	}
+	return q
+}
+
+func (p plState) apply(m Mut, after snapshot) {
 	name := fmt.Sprintf("wal-%.10d.log", m.Seq)
 	switch m.Kind {
 	case MCreate:
-		synced[name] = 0
+		p.durable[name] = []byte{}
 	case MSync:
-		synced[name] = int64(len(snap[name]))
-	case MTruncate, MRepair:
-		if int64(len(snap[name])) < synced[name] {
-			synced[name] = int64(len(snap[name]))
+		p.durable[name] = after[name]
+	case MDirSync:
+		for k := range p.durNames {
+			delete(p.durNames, k)
 		}
-	case MUnlink:
-		delete(synced, name)
+		for k := range after {
+			if _, ok := seqOf(k); ok {
+				p.durNames[k] = true
+			}
+		}
+		for k := range p.durable {
+			if !p.durNames[k] {
+				delete(p.durable, k)
+			}
+		}
 	}
 }
 
-// unsyncedStates: "every prefix of the last unsynced write". If, when the operation starts, some file holds bytes
-// that no fsync covered (an earlier Append returned without syncing), those bytes may vanish at any crash point:
-// the state with every file cut back to its synced length is judged like any other crash state. With the code as
-// it stands this never happens (every Append ends with an fsync of the file it wrote), so it costs nothing.
-func (r *Runner) unsyncedStates(op int, c *collector, b bounds) {
-	dirty := false
-	for name, content := range c.snaps[0] {
-		if _, ok := seqOf(name); ok && int64(len(content)) > r.synced[name] {
-			dirty = true
+// worst returns the power-loss state and how it differs from the volatile one:
+// "" (equal), "unsynced" (only bytes beyond a synced prefix are missing), "undirsynced" (directory entries differ),
+// "pendingtrunc" (a file is longer than, or not a prefix of, its volatile content: an un-synced truncation).
+func (p plState) worst(vol snapshot) (snapshot, string) {
+	s := snapshot{}
+	kind := ""
+	for k, v := range vol {
+		if _, ok := seqOf(k); !ok {
+			s[k] = v // not a log file
 		}
 	}
-	cur := map[string]int64{}
-	for k, v := range r.synced {
-		cur[k] = v
+	for name := range p.durNames {
+		s[name] = p.durable[name]
 	}
-	for j := 0; j <= len(c.muts); j++ {
-		if j > 0 {
-			applySync(cur, c.muts[j-1], c.snaps[j])
-		}
-		if !dirty {
+	for name, content := range vol {
+		if _, ok := seqOf(name); !ok {
 			continue
 		}
-		s := make(snapshot, len(c.snaps[j]))
-		changed := false
-		for name, content := range c.snaps[j] {
-			if _, ok := seqOf(name); ok && int64(len(content)) > cur[name] {
-				s[name] = content[:cur[name]]
-				changed = true
-			} else {
-				s[name] = content
+		d, listed := s[name]
+		switch {
+		case !listed:
+			if kind == "" || kind == "unsynced" {
+				kind = "undirsynced"
 			}
-		}
-		if changed {
-			r.clsTag = "-unsynced"
-			r.evalCrash(op, c, j, -1, s, b, false)
-			r.clsTag = ""
-			vw.Stat("crash.unsynced.states", 1)
+		case len(d) <= len(content) && bytes.Equal(d, content[:len(d)]):
+			if len(d) < len(content) && kind == "" {
+				kind = "unsynced"
+			}
+		default:
+			kind = "pendingtrunc"
 		}
 	}
-	r.synced = cur
+	for name := range p.durNames {
+		if _, ok := vol[name]; !ok && kind != "pendingtrunc" {
+			kind = "undirsynced"
+		}
+	}
+	return s, kind
+}
+
+func (r *Runner) plInit() {
+	if r.durable == nil {
+		r.durable = map[string][]byte{}
+		r.durNames = map[string]bool{}
+	}
+}
+
+// markDurable: everything on disk now counts as durable (used after the failed-Append path, see Reopen).
+func (r *Runner) markDurable() {
+	r.durable = map[string][]byte{}
+	r.durNames = map[string]bool{}
+	for name, content := range readDir(r.dir) {
+		if _, ok := seqOf(name); ok {
+			r.durable[name] = content
+			r.durNames[name] = true
+		}
+	}
+}
+
+// powerLossStates: if the cache is dirty when the operation starts (something an earlier, acknowledged operation
+// did is not durable), every crash point of this operation is also judged in its worst power-loss state.
+//   - missing un-synced bytes ("every prefix of the last unsynced write") and missing/extra directory entries are
+//     reported like any crash state (classes -unsynced, -undirsynced): they can only arise if an fsync or a
+//     directory sync was dropped;
+//   - a pending truncation is outside C06's crash quantifier: judged in observation mode (statistics only).
+func (r *Runner) powerLossStates(op int, c *collector, b bounds) {
+	r.plInit()
+	cur := plState{r.durable, r.durNames}.clone()
+	_, kind0 := cur.worst(c.snaps[0])
+	for j := 0; j <= len(c.muts); j++ {
+		if j > 0 {
+			cur.apply(c.muts[j-1], c.snaps[j])
+		}
+		if kind0 == "" {
+			continue
+		}
+		s, kind := cur.worst(c.snaps[j])
+		if kind == "" {
+			continue
+		}
+		r.clsTag = "-" + kind
+		r.observe = kind == "pendingtrunc" || kind0 == "pendingtrunc"
+		r.evalCrash(op, c, j, -1, s, b, false)
+		r.observe = false
+		r.clsTag = ""
+		vw.Stat("powerloss.states."+kind, 1)
+	}
+	r.durable, r.durNames = cur.durable, cur.durNames
 }
 
 func (r *Runner) crashStates(op int, c *collector, b bounds) {
 	if !c.snap {
 		return
 	}
-	if r.synced == nil {
-		r.synced = map[string]int64{}
-	}
-	defer r.unsyncedStates(op, c, b)
+	defer r.powerLossStates(op, c, b)
 	vw.Stat("crash.ops", 1)
 	n := len(c.muts)
 	for j := 0; j <= n; j++ {
@@ -1491,3 +1578,106 @@ func (r *Runner) run(nops int, baseID int64) {
 
 // HooksPresent reports whether any verifhook call site fired so far (they are required for crash points).
 func HooksPresent() bool { return hooksSeen > 0 }
+
+// ---------------------------------------------------------------- system-call witness for the sync sites
+
+// noRealSync[site] is set when the witness found hook markers of a sync site without an fsync system call between
+// them: the hook lines are still there but the call is gone. The collector then ignores the site's hook events, so
+// that the missing sync shows up as a trace difference AND as lost acknowledged records in the power-loss states.
+var noRealSync = map[string]bool{}
+
+// SyncWitnessChild runs in a child process under strace: a short log session whose hook callback writes a marker
+// (one write system call) before and after every fsync / directory-sync site.
+func SyncWitnessChild(dir string) {
+	runtime.LockOSThread()
+	mk, err := syscall.Open(filepath.Join(dir, "markers"), syscall.O_WRONLY|syscall.O_CREAT|syscall.O_APPEND, 0o600)
+	if err != nil {
+		panic(err)
+	}
+	verifhook.Callback = func(site string, args ...interface{}) {
+		switch site {
+		case "wal.sync.before", "wal.sync.after", "wal.dirsync.before", "wal.dirsync.after":
+			syscall.Write(mk, []byte("VERIFMARK "+site+"\n"))
+		}
+	}
+	logdir := filepath.Join(dir, "log")
+	os.MkdirAll(logdir, 0o700)
+	QuietLogs(dir)
+	l, err := wal.OpenFSLog(logdir)
+	if err != nil {
+		panic(err)
+	}
+	wal.VerifSetMaxFileSize(l, 64)
+	id := uint64(1)
+	for i := 0; i < 4; i++ {
+		l.Append(wal.Record{ID: id, Data: make([]byte, 40)}, wal.Record{ID: id + 1, Data: []byte("x")})
+		id += 2
+	}
+	l.Trim(4)
+	l.Truncate(6)
+	l.Close()
+	syscall.Close(mk)
+}
+
+// SyncWitness runs the child under strace and checks that every marker pair of a sync site encloses an fsync (or
+// fdatasync) system call of the same thread. Returns available=false when strace cannot be used.
+func SyncWitness(base, childTest string) (available bool, pairs int, missing []string) {
+	strace, err := exec.LookPath("strace")
+	if err != nil {
+		return false, 0, nil
+	}
+	dir := filepath.Join(base, "witness")
+	os.MkdirAll(dir, 0o700)
+	out := filepath.Join(dir, "strace.out")
+	cmd := exec.Command(strace, "-f", "-qq", "-s", "64", "-e", "trace=fsync,fdatasync,write", "-o", out,
+		os.Args[0], "-test.run", childTest)
+	cmd.Env = append(os.Environ(), "VERIF_C06_SYNCDIR="+dir)
+	if err := cmd.Run(); err != nil {
+		return false, 0, nil
+	}
+	f, err := os.Open(out)
+	if err != nil {
+		return false, 0, nil
+	}
+	defer f.Close()
+	open := map[string]string{} // pid -> site whose "before" marker was seen
+	seen := map[string]bool{}
+	sc := bufio.NewScanner(f)
+	sc.Buffer(make([]byte, 1<<20), 1<<20)
+	for sc.Scan() {
+		line := sc.Text()
+		fields := strings.Fields(line)
+		if len(fields) < 2 {
+			continue
+		}
+		pid := fields[0]
+		switch {
+		case strings.Contains(line, "VERIFMARK wal."):
+			i := strings.Index(line, "VERIFMARK ") + len("VERIFMARK ")
+			rest := line[i:]
+			j := strings.IndexAny(rest, "\\\"")
+			if j > 0 {
+				rest = rest[:j]
+			}
+			site := strings.TrimSuffix(strings.TrimSuffix(rest, ".before"), ".after")
+			if strings.HasSuffix(rest, ".before") {
+				open[pid], seen[pid] = site, false
+			} else if strings.HasSuffix(rest, ".after") && open[pid] == site {
+				pairs++
+				if !seen[pid] {
+					missing = append(missing, site)
+				}
+				delete(open, pid)
+			}
+		case strings.Contains(line, "fsync(") || strings.Contains(line, "fdatasync(") || strings.Contains(line, "sync resumed"):
+			seen[pid] = true
+		}
+	}
+	if pairs == 0 {
+		return false, 0, nil // no markers at all: the witness did not work, fall back to trusting the hooks
+	}
+	for _, site := range missing {
+		noRealSync[site] = true
+	}
+	return true, pairs, missing
+}
